@@ -132,6 +132,13 @@ def normal_family_case(dname, cfg, pname, rows, seed, tier, obj=None, stage=""):
     D = int(np.prod(es))
     ctx = d.contexts(cfg, rows, seed) if d.ctx_shape(cfg) is not None else None
     nrows = rows if ctx is not None else 1
+    if dname == "ConditionalDiagonalNormal" and cfg.get("encoder") == "identity" and rows == 3:
+        # legal but extreme context rows: with the identity encoder the second half of a context row is log_std itself. One row
+        # with every std = exp(-8) and one mixing exp(5) with exp(-9): any clamp, floor or cap applied to the scale in one term
+        # of the density but not in the other (or in the sampler only) shows as a mass different from 1 or a wrong lattice.
+        ctx = ctx.clone()
+        ctx[1, D:] = -8.0
+        ctx[2, D:] = torch.tensor([5.0 if k % 2 == 0 else -9.0 for k in range(D)], dtype=ctx.dtype)
     # mean(): documented shape and value
     mean = None
     try:
@@ -213,7 +220,25 @@ def normal_family_case(dname, cfg, pname, rows, seed, tier, obj=None, stage=""):
                         return obj.log_prob(X.reshape(t.shape[0], *es), context=cc)
 
                     xs = np.sort(s[r, :, k].numpy())
-                    F, tot = cdf_1d(lp1, xs, xmax=60.0)
+                    # the quadrature has to find the mass first: standardise the section with the curvature of log_prob at the
+                    # mean (grid placement only: F is the same function of the sample, whatever the re-parametrisation)
+                    lpq = lp1
+                    try:
+                        h, c0 = 1e-3, float(m0[k])
+                        f0, fp, fm = (float(lp1(torch.tensor([c0 + t], dtype=torch.float64))[0]) for t in (0.0, h, -h))
+                        curv = (fp - 2 * f0 + fm) / h ** 2
+                        if not (curv < 0 and 1e-6 < 1.0 / math.sqrt(-curv) < 1e6):  # far narrower than h: take the curvature at the scale of the samples
+                            h = max(float(xs[-1] - xs[0]) / 8, 1e-12)
+                            f0, fp, fm = (float(lp1(torch.tensor([c0 + t], dtype=torch.float64))[0]) for t in (0.0, h, -h))
+                            curv = (fp - 2 * f0 + fm) / h ** 2
+                        if curv < 0:
+                            sg = 1.0 / math.sqrt(-curv)
+                            if 1e-6 < sg < 1e6 and abs(sg - 1.0) > 0.5:
+                                lpq = lambda u, c0=c0, sg=sg: lp1(c0 + u * sg) + math.log(sg)
+                                xs = (xs - c0) / sg
+                    except Exception:
+                        lpq = lp1
+                    F, tot = cdf_1d(lpq, xs, xmax=60.0)
                     F = F / tot
                     target = (np.arange(M) + 0.5) / M
                     if float(np.max(np.abs(F - target))) > 2e-4:
